@@ -36,7 +36,10 @@ func zzC07Script(fault string) string {
 		"function outer(v) { w = inner(v); return w + 1; }\n" +
 		"n = n + 1;\n" +
 		"t(n);\n" +
-		"if (F > 10) { r = outer(F); t(r); }\n" +
+		"function empty() { }\n" +
+		"if (F > 10) { r = 100 + outer(F); t(r); }\n" +
+		"if (F == 7) { return empty(); }\n" +
+		"if (F == 8) { empty(); return 200 + empty(); }\n" +
 		"foreach x in [1, 2] { if (F == 5) { return x; } }\n" +
 		"return n + F;"
 }
